@@ -402,7 +402,7 @@ class InterpAkima(InterpAlgorithm):
 
         bpos = np.atleast_1d((m2 * w2 + m3 * w31) / (w2 + w31))
         if compute_local_train:
-            if len(m2.shape) > 1:
+            if np.ndim(dm2_dv) > 1:
 
                 w2n = w2[..., np.newaxis]
                 w31n = w31[..., np.newaxis]
@@ -448,7 +448,7 @@ class InterpAkima(InterpAlgorithm):
 
         bp1pos = np.atleast_1d((m3 * w32 + m4 * w4) / (w32 + w4))
         if compute_local_train:
-            if len(m2.shape) > 1:
+            if np.ndim(dm3_dv) > 1:
 
                 w32n = w32[..., np.newaxis]
                 w4n = w4[..., np.newaxis]
@@ -631,7 +631,12 @@ class InterpAkima(InterpAlgorithm):
                 if self._compute_d_dx:
                     db[jj1] = dbpos[jj1]
                 if self._compute_d_dvalues:
-                    db_dv[jj1] = dbpos_dv[jj1]
+                    if len(val3.shape) == 0:
+                        # Top level of a 2D table: db_dv is a single vector over all table values.
+                        if len(jj1[0]) > 0:
+                            db_dv[:] = dbpos_dv
+                    else:
+                        db_dv[jj1] = dbpos_dv[jj1]
 
             if delta_x > 0:
                 if self._compute_d_dx:
@@ -694,7 +699,11 @@ class InterpAkima(InterpAlgorithm):
                 if self._compute_d_dx:
                     dbp1[jj2] = dbp1pos[jj2]
                 if self._compute_d_dvalues:
-                    dbp1_dv[jj2] = dbp1pos_dv[jj2]
+                    if len(val3.shape) == 0:
+                        if len(jj2[0]) > 0:
+                            dbp1_dv[:] = dbp1pos_dv
+                    else:
+                        dbp1_dv[jj2] = dbp1pos_dv[jj2]
 
             if extrap == 0:
                 if self._compute_d_dx:
